@@ -4,7 +4,7 @@ CONSTANTS
   MaxSlot = 5
   MaxGen = 2
   MaxFaults = 1
-  Variants = 2
+  Variants = 1
   Kinds = {"att", "blk"}
   FaultKinds = {"crash", "crashafter", "fail", "rerr", "rmiss"}
   Weaken = "none"
